@@ -47,7 +47,8 @@ VisibleString = construct.PascalString(construct.Int8ub, "ASCII")
 OctedStringText = construct.FocusedSeq(
     "value",
     "length" / construct.Int8ub,
-    "value" / construct.PaddedString(construct.this.length, "ASCII"),
+    # Not PaddedString: it strips trailing NUL characters, and the text shall be returned as sent.
+    "value" / construct.StringEncoded(construct.Bytes(construct.this.length), "ASCII"),
 )
 
 ObisCode = construct.ExprAdapter(
